@@ -140,13 +140,18 @@ def gen(rng, nboards=None, ntrains=None, small=False, secack=None, allow_hi_bits
                 dcc_used.add((ah, al)); return al, ah
     def aspects(k):
         vals = rng.sample(range(256) if allow_hi_bits else range(128), k)
-        return [{"id": nid("a"), "val": v} for v in vals]
+        out = [{"id": nid("a"), "val": v} for v in vals]
+        # now and then an aspect whose id extends the id of an earlier aspect of the same accessory ("stop" / "stop_shunt")
+        if k > 1 and rng.random() < 0.25: out[-1]["id"] = out[0]["id"] + rng.choice(["0", "_b"])
+        return out
     def dcc_aspects(k):
         # one port set per accessory, distinct value vectors: no aspect's (port, value) set is contained in another's
         np_ = rng.choice([1, 2, 2, 3]); k = min(k, 2 ** np_)
         ports = sorted(rng.sample(range(32), np_))
         vecs = rng.sample(range(2 ** np_), k)
-        return [{"id": nid("a"), "ports": [[p, (v >> j) & 1] for j, p in enumerate(ports)]} for v in vecs]
+        out = [{"id": nid("a"), "ports": [[p, (v >> j) & 1] for j, p in enumerate(ports)]} for v in vecs]
+        if len(out) > 1 and rng.random() < 0.25: out[-1]["id"] = out[0]["id"] + rng.choice(["0", "_b"])
+        return out
     for i in range(nb):
         while True:
             uid = [rng.choice(CLASS_CHOICES), rng.randrange(256), rng.randrange(256)] + [rng.randrange(256) for _ in range(4)]
